@@ -159,3 +159,40 @@ def attr_chain(term):
         parts.append(term[1])
         return '.'.join(reversed(parts))
     return None
+
+
+def tuple_items(term):
+    """Element terms of a tuple term (literal or folded constant)."""
+    if term is None:
+        return None
+    if term[0] == 'tuple':
+        return list(term[1])
+    if term[0] == 'c' and isinstance(term[1], (tuple, frozenset)):
+        return [T.C(x) for x in term[1]]
+    return None
+
+
+def aff_key(cond):
+    """Order-independent key of an affine comparison `sum(c_i*atom_i)+k op 0`:
+    (op, frozenset((show(atom), coef)), k); None for other terms."""
+    if cond is None or cond[0] != 'cmp0':
+        return None
+    f = T.to_aff(cond[2])
+    if f is None:
+        return None
+    return (cond[1], frozenset((T.show(a), c) for a, c in f[0].items()),
+            f[1])
+
+
+def aff(op, k=0, **atoms):
+    """Expected key: aff('>', 1, **{'self.x': 1, 'self.y': -1})"""
+    return (op, frozenset(atoms.items()), k)
+
+
+def mk_aff_key(op, atoms, k=0):
+    return (op, frozenset(atoms.items()), k)
+
+
+def assume_keys(path, upto=None):
+    evs = path.events if upto is None else path.events[:upto]
+    return [aff_key(e.cond) for e in evs if e.kind == 'assume']
